@@ -214,6 +214,10 @@ impl<E: Effect> Repl<E> {
         env: &mut Environment<E>,
         name: &str,
     ) -> Result<u64, EnvironmentError> {
+        if let Some(repl_process_id) = self.repl_process_id {
+            self.forget_unstored_bindings(env, repl_process_id);
+        }
+
         let binding = self
             .bindings
             .get(name)
@@ -275,6 +279,19 @@ impl<E: Effect> Repl<E> {
         indices
     }
 
+    /// Forget the variables that the last line bound but never stored. A line that short-circuits
+    /// on nil skips the steps after it, bindings included, yet the compiler has bound them all.
+    /// Locals are stored in index order, so the skipped bindings are exactly those beyond the
+    /// locals the process held when it delivered the line's result. Kept, they would address slots
+    /// that do not exist: in lookups, and in the compaction before the next line.
+    fn forget_unstored_bindings(&mut self, env: &mut Environment<E>, repl_process_id: ProcessId) {
+        if let Some(locals_count) = env.take_locals_count(repl_process_id) {
+            self.bindings.retain(|_, binding| {
+                !matches!(binding, Binding::Variable { index, .. } if *index >= locals_count)
+            });
+        }
+    }
+
     /// Re-align the process's locals with the binding indices: keep only the bound variables,
     /// re-indexed contiguously, and rewrite the binding map to match. Called by `evaluate` before
     /// compiling each line — without it the physical local positions drift from the compiler's
@@ -286,6 +303,8 @@ impl<E: Effect> Repl<E> {
         let Some(repl_process_id) = self.repl_process_id else {
             return;
         };
+
+        self.forget_unstored_bindings(env, repl_process_id);
 
         let keep_indices = self.keep_indices();
 
